@@ -65,6 +65,13 @@ kevent(int kq, const struct kevent *changes, int nchanges,
 		int fd = (int)syscall(SYS_pidfd_open, pid, 0);
 
 		if (fd == -1) {
+			/*
+			 * kevent(2): an error while processing a change is
+			 * reported in the eventlist if there is room for it,
+			 * otherwise the call fails with that error.
+			 */
+			if (n >= nevents)
+				return -1;
 			if (n < nevents) {
 				memset(&events[n], 0, sizeof(events[n]));
 				events[n].ident = (uintptr_t)pid;
